@@ -191,7 +191,10 @@ def dense_real(p, inputs):
 
 def _dense_cases(tier):
     sizes = [((3,), 2)] if tier == "quick" else [((3,), 2), ((4,), 2), ((2, 2), 3)]
-    return [dict(layout=list(l), K=K, mode="genome", max_iters=1, tol=0.5, rescale=False, vmax=2, concrete_positions=True, cmax=3) for l, K in sizes]
+    out = [dict(layout=list(l), K=K, mode="genome", max_iters=1, tol=0.5, rescale=False, vmax=2, concrete_positions=True, cmax=3) for l, K in sizes]
+    # a float64 count column with fractional values (quarters): the non-zero filter counts pixels, not magnitudes
+    out.append(dict(layout=[3], K=2, mode="genome", max_iters=1, tol=0.5, rescale=False, vmax=3, concrete_positions=True, cmax=3, float_counts=True))
+    return out
 
 
 CHECKS = [
